@@ -48,8 +48,21 @@ def run(rep, facts):
         return
     rep.ok("R14.2", "shared-type", "the shutdown future holds Weak<%s>" % shared, pb.loc())
 
+    def moved_out(n):
+        """locals whose Option payload is moved out by a statement of this block (`x = move (_l as Some).0`):
+        a later drop of `_l` drops an empty shell, not the Arc"""
+        out = set()
+        for st_ in n.stmts:
+            if st_["k"] == "assign" and st_["rv"]["k"] == "use" and "move" in st_["rv"]["op"]:
+                pl = st_["rv"]["op"]["move"]
+                pr = pl.get("p", [])
+                if len(pr) == 2 and "variant" in pr[0] and pr[1].get("f") == 0:
+                    out.add("MOVED:%d" % pl["l"])
+        return out
+
     def effect(n, m, lab):
         gens, kills = set(), set()
+        gens |= moved_out(n)
         nm = g.callee(n) if n.term["k"] == "call" else None
         if nm == REGISTER:
             a0 = ir.peel(g.arg(n, 0))
@@ -64,9 +77,9 @@ def run(rep, facts):
         if n.term["k"] == "switch":
             de = ev.switch_expr(n)
             if de is not None and de[0] == 'discr' and ir.peel(de[1])[0] == 'call' and ir.peel(de[1])[1] == UPGRADE:
-                if lab == ('case', 1):
+                if lab == ('case', 1) or (isinstance(lab, tuple) and lab[0] == 'otherwise' and 0 in lab[1] and 1 not in lab[1]):
                     gens.add("SOME")
-                elif lab == ('case', 0):
+                elif lab == ('case', 0) or (isinstance(lab, tuple) and lab[0] == 'otherwise' and 1 in lab[1] and 0 not in lab[1]):
                     gens.add("NONE")
         return gens, kills
     must = common.must_dataflow(g, frozenset(), effect)
@@ -79,6 +92,9 @@ def run(rep, facts):
         if t["k"] == "drop" and shared in [F.norm(a) for a in t["ty"].get("adts", [])] and "std::sync::Arc" in t["ty"].get("adts", []):
             if "NONE" in st:
                 continue
+            dl = t.get("place", {}).get("l")
+            if dl is not None and "p" not in t.get("place", {}) and ("MOVED:%d" % dl) in (set(st) | moved_out(n)):
+                continue        # the Arc was moved out of this Option before; nothing is released here
             ndrops += 1
             if "REG" not in st:
                 rep.violation("R14.2", "register-before-drop", "the upgraded Arc can be dropped before the waker is registered (a final token drop in between would wake nobody)", n.loc())
